@@ -420,6 +420,13 @@ def instanceWalk (g : Graph) (constructed : List Nat) (root : Nat) : InstRun :=
   { trace := r.1, store := r.2,
     preTasks := firstOcc [] ((exitsOf r.1).flatMap (fun n => (g.node n).preTasks)) }
 
+/-- the attribute values `postprocess` assigns to each new runtime object, in the order the objects
+    are completed; a reference denotes the runtime object of that configuration (the stub kept in the
+    store), whether it was built earlier, is still being built (cycle) or was built by an earlier call. -/
+def instanceAttrs (g : Graph) (constructed : List Nat) (root : Nat) : List (Nat × List (List Nat × Val)) :=
+  (exitsOf (instanceWalk g constructed root).trace).map
+    (fun n => (n, ((g.node n).args.filter present).map (fun a => (a.name, a.value))))
+
 /-- the events of `fromConfig`: the walk, then every gathered pre-task is executed. -/
 def instanceLog (g : Graph) (constructed : List Nat) (root : Nat) : List Ev :=
   let r := instanceWalk g constructed root
